@@ -80,6 +80,9 @@ struct tdesc
     int stack;             // 0 default 1 small 2 medium 3 large
     int spin;
     int boost;             // number of back-off yields (yield_k, k >= 16: "pending_boost" yields)
+    int relay;             // > 0: the body is a relay of that many tiny tasks, each creating its successor right before
+                           // it finishes (at every hand-over exactly one task exists, just created); the task
+                           // counts as finished when the last link has run
     bool late_spawn;       // children are created one at a time at the END of the body, with gaps: the parent
                            // is then often the only task alive while a child comes and goes
 };
@@ -110,10 +113,33 @@ static void submit(program* P, int id, int parent, int ext)
     ex::execute(s2, [P, id] { run_task(P, id); });
 }
 
+static void finish_task(program* P, int id)
+{
+    tdesc const& d = P->t[id];
+    ev("exit").i("t", id).done();
+    if (d.parent > 0 && P->t[d.parent].wait_children) P->sem[d.parent]->release();
+    ++P->done;
+}
+
+static void relay_link(program* P, int id, int left)
+{
+    if (left <= 0)
+    {
+        finish_task(P, id);
+        return;
+    }
+    ex::execute(ex::thread_pool_scheduler{}, [P, id, left] { relay_link(P, id, left - 1); });
+}
+
 static void run_task(program* P, int id)
 {
     tdesc const& d = P->t[id];
     ev("enter").i("t", id).i("w", (long long) pika::get_worker_thread_num()).done();
+    if (d.relay > 0)
+    {
+        relay_link(P, id, d.relay);
+        return;
+    }
     for (int s = 0; s < d.spin * 100; ++s) asm volatile("" ::: "memory");
     if (!d.late_spawn)
         for (int c : d.children) submit(P, c, id, 0);
@@ -147,9 +173,7 @@ static void run_task(program* P, int id)
             submit(P, c, id, 0);
             for (int s = 0; s < 4000 + d.spin * 3000; ++s) asm volatile("" ::: "memory");
         }
-    ev("exit").i("t", id).done();
-    if (d.parent > 0 && P->t[d.parent].wait_children) P->sem[d.parent]->release();
-    ++P->done;
+    finish_task(P, id);
 }
 
 static std::unique_ptr<program> make_program(vlog::rng& R, int ntasks)
@@ -187,6 +211,13 @@ static std::unique_ptr<program> make_program(vlog::rng& R, int ntasks)
         P->t[i].late_spawn = !P->t[i].children.empty() && R.chance(1, 3);
         if (trickle && i == 1 && !P->t[i].children.empty()) P->t[i].late_spawn = true;
         if (P->t[i].late_spawn) P->t[i].wait_children = false;
+    }
+    // some childless tasks are relays
+    bool relays = R.chance(1, 3);
+    for (int i = 1; i <= ntasks; ++i)
+    {
+        P->t[i].relay = 0;
+        if (relays && P->t[i].children.empty() && R.chance(1, 3)) P->t[i].relay = 100 + (int) R.below(1200);
     }
     for (int i = 1; i <= ntasks; ++i)
         if (P->t[i].wait_children) P->sem[i] = std::make_unique<pika::counting_semaphore<>>(0);
@@ -252,10 +283,28 @@ int main(int argc, char** argv)
         bool with_main = R.chance(1, 2);
         int rv = with_main ? (int) R.below(100) : 0;
         int ntasks = 4 + (int) R.below(24);
+        // "relay mode": every task is a root relay, submitted one at a time by the driver, each followed by its
+        // own pika::wait() - the runtime is never quiet and never holds more than one (just created) task
+        bool relay_mode = R.chance(1, 6);
+        if (relay_mode) ntasks = 3 + (int) R.below(8);
         auto P = make_program(R, ntasks);
+        std::vector<int> seq_roots;
+        if (relay_mode)
+            for (int i = 1; i <= ntasks; ++i)
+            {
+                tdesc& d = P->t[i];
+                d.parent = 0;
+                d.children.clear();
+                d.yields = 0;
+                d.wait_children = false;
+                d.boost = 0;
+                d.late_spawn = false;
+                d.relay = 300 + (int) R.below(1700);
+                seq_roots.push_back(i);
+            }
         std::vector<int> roots;
         for (int i = 1; i <= ntasks; ++i)
-            if (P->t[i].parent == 0) roots.push_back(i);
+            if (P->t[i].parent == 0 && !relay_mode) roots.push_back(i);
         // roots are split between: the entry function (if any), the driver thread, and a second
         // external submitter thread; and between "before wait", "while suspended" and "late"
         std::vector<int> by_main, by_driver, by_ext2, while_suspended, late;
@@ -300,6 +349,13 @@ int main(int argc, char** argv)
         }
         else { pika::start(nullptr, (int) av.size(), av.data()); }
 
+        for (int r : seq_roots)
+        {
+            submit(PP, r, 0, 2);
+            ev("wait_call").done();
+            guarded("wait", [] { pika::wait(); });
+            ev("wait_ret").done();
+        }
         std::thread ext2([&] {
             for (int r : by_ext2) submit(PP, r, 0, 3);
         });
